@@ -56,6 +56,46 @@ fn sub_entry(full: &(u64, Vec<Vec<String>>), got: &(u64, Vec<Vec<String>>), fo: 
     Ok(())
 }
 
+/// Error paths must not poison later calls. One time in `every`, before a case is checked, the
+/// shortest-path functions are driven down their error path on the same OS thread and inside the
+/// shared rayon pools: a small directed graph in which a negative edge improves an already
+/// finalised node (single_source returns ContradictoryPaths, the parallel all_pairs panics on its
+/// internal unwrap, as it always did). The results of these calls are ignored; what matters is that
+/// the valid calls that follow are unaffected (no state may survive in thread-locals or caches).
+pub fn poison_shortest_path_state(sel: u64, every: u64) {
+    use crate::model::{mk_edge, mk_node, SpecBits, G};
+    if sel % every.max(1) != 0 {
+        return;
+    }
+    let build = |n: usize| -> G {
+        let mut g = G::new(SpecBits::kind(true, false, false).to_specs());
+        for i in 0..n {
+            g.add_node(mk_node(&format!("p{:02}", i), None));
+        }
+        let e = |g: &mut G, a: usize, b: usize, w: f64| {
+            let _ = g.add_edge(mk_edge(&format!("p{:02}", a), &format!("p{:02}", b), w));
+        };
+        // p00 -> p01 (1), p00 -> p02 (5), p02 -> p01 (-10): p01 is finalised before p02 relaxes it
+        e(&mut g, 0, 1, 1.0);
+        e(&mut g, 0, 2, 5.0);
+        e(&mut g, 2, 1, -10.0);
+        for i in 3..n {
+            e(&mut g, i - 2, i, 1.0 + (i % 3) as f64);
+            e(&mut g, i, 0, 2.0);
+        }
+        g
+    };
+    let small = build(5);
+    let _ = guard(|| dijkstra::single_source(&small, true, "p00".to_string(), None, None, false, true));
+    let _ = guard(|| dijkstra::single_source(&small, true, "p00".to_string(), Some("p04".to_string()), Some(100.0), true, false));
+    let big = build(26);
+    for threads in [2usize, 3, 5, 16] {
+        let pool = crate::props::c17::pool_of(threads);
+        let _ = guard(|| pool.install(|| dijkstra::all_pairs(&big, true, None, None, false, true)));
+        let _ = guard(|| pool.install(|| dijkstra::all_pairs(&big, true, Some("p03".to_string()), None, false, true)));
+    }
+}
+
 impl Prop for C08 {
     type Case = OptCase;
     fn id(&self) -> &'static str {
@@ -99,6 +139,7 @@ impl Prop for C08 {
     }
     fn check(&self, case: &OptCase) -> Outcome {
         let mut out = Outcome::new();
+        poison_shortest_path_state(case.sel, 8);
         let ng = case.g.norm();
         let graph = ng.build();
         let n = ng.n;
